@@ -213,7 +213,10 @@ def run_job(prop, job, tier, seed, cpudir, logdir):
             rep['_job'] = name
             res.reports.append(rep)
             for v in rep.get('violations', []):
-                res.violations.append({'key': v['key'], 'what': v['what'], 'witness': v.get('witness'), 'job': name})
+                w = v.get('witness')
+                if ('|hang|' in v['key'] or '|livelock|' in v['key']) and 'VF-STACK' in stderr and isinstance(w, dict):
+                    w['thread_stacks'] = stderr[stderr.index('VF-STACK'):][:12000]  # best-effort stack dump made by the watchdog
+                res.violations.append({'key': v['key'], 'what': v['what'], 'witness': w, 'job': name})
         elif ln.startswith('VF-SIGS '):
             parts = ln.split()
             for hx in parts[2:]:
